@@ -31,10 +31,10 @@ func LoadFixture(name string) (*Prog, error) {
 	p.SSA.Build()
 	for _, sp := range spkgs {
 		p.SSAPkgs[sp.Pkg.Path()] = sp
-		for _, m := range sp.Members {
-			if f, ok := m.(*ssa.Function); ok {
-				p.Funcs = append(p.Funcs, WithAnons(f)...)
-			}
+	}
+	for fn := range ssautil.AllFunctions(p.SSA) {
+		if fn.Blocks != nil && p.SSAPkgs[funcPkgPath(fn)] != nil && fn.Synthetic == "" {
+			p.Funcs = append(p.Funcs, fn)
 		}
 	}
 	return p, nil
